@@ -93,6 +93,14 @@ PropC09e(e) == e.ev = "fillell" =>
                 /\ e.once.vars = RemainingVars(t1, e.sigma) \/ e.once.vars = RemainingVars(SpecNumbered(e.tmpl.abs, e.cnt), e.sigma)
                 /\ Same(e.once, e.steps)
 
+\* C18 for a fill through a message, ellipses included: the item tree becomes what filling the item alone gives, every
+\* other field is carried over
+PropC18e(e) == e.ev = "fillell" =>
+  /\ e.msgafter.outcome = e.once.outcome
+  /\ e.once.outcome = "ok" =>
+        /\ Norm(e.msgafter.item) = Norm(e.once.abs)
+        /\ \A fld \in {"name", "s", "f", "w", "dir", "sid", "sys"} : e.msgafter[fld] = e.msgbefore[fld]
+
 \* ------------------------------------------------------------------ C12
 BinLiteral(cs) == \* ^0b[01]+$ with a value below 256
    IF Len(cs) >= 3 /\ cs[1] = 48 /\ cs[2] = 98 /\ \A i \in 3..Len(cs) : cs[i] \in {48, 49}
@@ -145,6 +153,7 @@ PropC12(e) ==
 
 InvC16 == l > 0 => PropC16(E)
 InvAgreeC16 == l > 0 => AgreeC16(E)
-InvC09 == l > 0 => PropC09(E) /\ PropC09e(E)
+InvC09 == l > 0 => PropC09(E) /\ PropC09e(E) /\ PropC18e(E)
+InvC18e == l > 0 => PropC18e(E)
 InvC12 == l > 0 => PropC12(E)
 =====================================================================
